@@ -180,7 +180,7 @@ Definition offsets_ok (tb : tables) : bool :=
   | None, None => false
   end
   && forallb (fun o => o + sumN (sizes tb) <? 18446744073709551616) (offsets tb)
-  && is_u32 (nchunks tb).
+  && is_u32 (nchunks tb + 1).
 
 Definition stss_ok (tb : tables) : bool :=
   match t_stss tb with
@@ -195,7 +195,7 @@ Definition sdtp_ok (tb : tables) : bool :=
   end.
 
 Definition consistent (tb : tables) : bool :=
-  is_u32 (nsamples tb) && stts_ok tb && ctts_ok tb && stsc_ok tb && stsz_ok tb && offsets_ok tb
+  is_u32 (nsamples tb + 1) && stts_ok tb && ctts_ok tb && stsc_ok tb && stsz_ok tb && offsets_ok tb
   && stss_ok tb && sdtp_ok tb.
 
 (* GetSampleNrAtTime needs more: every delta positive, except that the last entry may be a single
@@ -209,3 +209,42 @@ Fixpoint deltas_positive (cs ds : list N) : bool :=
     end
   | _, _ => true
   end.
+
+(* ---- interval queries on the expansion ---- *)
+Fixpoint seqN (start : N) (len : nat) : list N :=
+  match len with O => [] | S l => start :: seqN (start + 1) l end.
+
+Definition S_chunk (tb : tables) (c : N) : option chunk :=
+  match S_chunk_count tb c with
+  | Some cnt => Some (mkChunk c (S_first_in_chunk tb c) cnt)
+  | None => None
+  end.
+
+(* the chunks meeting the sample interval [a,b]: chunk_of a .. chunk_of b, in order *)
+Definition S_containing (tb : tables) (a b : N) : option (list (option chunk)) :=
+  match S_chunk_of tb a, S_chunk_of tb b with
+  | Some ca, Some cb => Some (map (S_chunk tb) (seqN ca (N.to_nat (cb + 1 - ca))))
+  | _, _ => None
+  end.
+
+(* the byte range of the samples of [a,b] that lie in chunk c: it starts at the file offset of the first such
+   sample (chunk offset + sizes of the chunk's earlier samples) and covers exactly those samples *)
+Definition S_range (tb : tables) (a b c : N) : option range :=
+  match S_chunk_offset tb c, S_chunk_count tb c with
+  | Some o, Some cnt =>
+    let fic := S_first_in_chunk tb c in
+    let from := N.max a fic in
+    let to := N.min b (fic + cnt - 1) in
+    Some (mkRange (o + S_total_size tb fic (from - 1)) (S_total_size tb from to))
+  | _, _ => None
+  end.
+
+Definition S_ranges (tb : tables) (a b : N) : option (list (option range)) :=
+  match S_chunk_of tb a, S_chunk_of tb b with
+  | Some ca, Some cb => Some (map (S_range tb a b) (seqN ca (N.to_nat (cb + 1 - ca))))
+  | _, _ => None
+  end.
+
+(* per-interval sample metadata *)
+Definition S_sample_data (tb : tables) (a b : N) : list (option sample) :=
+  map (S_meta tb) (seqN a (N.to_nat (b + 1 - a))).
